@@ -848,6 +848,83 @@ def judge_o_polygon(inp, obs, lr):
     return None
 
 
+# ---- composite horospheres and horosphere arcs -------------------------------------------------------------------
+def gen_o_horo_comp(rng, n):
+    for _ in range(n):
+        dim = rng.choice([2, 2, 3, 4])
+        k = rng.choice([2, 3, dim, dim + 1, 5])
+        units = []
+        for _ in range(k):
+            while True:
+                c = G.fsphere(rng, dim)
+                if c[0] < 0.8:
+                    break
+            units.append({"ideal": c, "ref": G.fball(rng, dim, 0.9), "t": [rng.uniform(0, 2 * math.pi) for _ in range(2)]})
+        yield {"dim": dim, "units": units, "degrees": rng.random() < 0.5}
+
+
+def run_o_horo_comp(inp):
+    dim, k = inp["dim"], len(inp["units"])
+    C = np.array([[1.0] + u["ideal"] for u in inp["units"]])
+    Rf = np.array(H.Point(np.array([u["ref"] for u in inp["units"]]), model="klein").proj_data, dtype=float)
+    hs = H.Horosphere(H.IdealPoint(C.copy()), H.Point(Rf.copy()))
+    out = {"k": k, "models": {}}
+    for model in ("poincare", "halfspace"):
+        ctr, rad = hs.sphere_parameters(model)
+        ctr, rad = np.array(ctr, dtype=float), np.array(rad, dtype=float)
+        if list(ctr.shape) != [k, dim] or list(rad.shape) != [k]:
+            out["models"][model] = {"shape": [list(ctr.shape), list(rad.shape)]}
+            continue
+        rc = np.array(H.Point(Rf.copy()).coords(model), dtype=float)
+        ic = np.array(H.Point(C.copy()).coords(model), dtype=float)
+        through = np.abs(np.linalg.norm(rc - ctr, axis=-1) - rad)
+        touch = np.abs(np.linalg.norm(ic - ctr, axis=-1) - rad)
+        tang = np.abs(np.linalg.norm(ctr, axis=-1) + rad - 1) if model == "poincare" else np.abs(ctr[:, -1] - rad)
+        out["models"][model] = {"worst": float(np.max(np.maximum(np.maximum(through, touch), tang) / (1 + rad) ** 2))}
+    if dim == 2:
+        ctr, rad = hs.sphere_parameters("poincare")
+        ctr, rad = np.array(ctr, dtype=float), np.array(rad, dtype=float)
+        if list(ctr.shape) == [k, 2]:
+            P1, P2 = [], []
+            for j, u in enumerate(inp["units"]):
+                t0 = math.atan2(u["ideal"][1], u["ideal"][0])
+                a = [t0 + 0.6 + t * (2 * math.pi - 1.2) / (2 * math.pi) for t in u["t"]]
+                P1.append(ctr[j] + rad[j] * np.array([math.cos(a[0]), math.sin(a[0])]))
+                P2.append(ctr[j] + rad[j] * np.array([math.cos(a[1]), math.sin(a[1])]))
+            arc = H.HorosphereArc(H.IdealPoint(C.copy()), H.Point(np.array(P1), model="poincare"), H.Point(np.array(P2), model="poincare"))
+            for model in ("poincare", "halfspace"):
+                ac, ar, th = arc.circle_parameters(model=model, degrees=inp["degrees"])
+                ac, ar = np.array(ac, dtype=float), np.array(ar, dtype=float)
+                th = np.array(th, dtype=float) * (math.pi / 180 if inp["degrees"] else 1.0)
+                if list(th.shape) != [k, 2]:
+                    out["models"]["arc_" + model] = {"shape": list(th.shape)}
+                    continue
+                e = np.array(arc.endpoint_coords(model), dtype=float)
+                ic = np.array(H.Point(C.copy()).coords(model), dtype=float)
+                worst_end, worst_side = 0.0, 0.0
+                for j in range(k):
+                    pts, _ = _arc_points(ac[j], float(ar[j]), th[j], 9)
+                    sc = (1 + ar[j]) ** 2
+                    worst_end = max(worst_end, float(np.max(np.abs(np.array(sorted([pts[0].tolist(), pts[-1].tolist()])) - np.array(sorted(e[j].tolist()))))) / sc)
+                    worst_side = max(worst_side, (min(np.linalg.norm(x - ic[j]) for x in e[j]) - min(np.linalg.norm(q - ic[j]) for q in pts)) / sc)
+                out["models"]["arc_" + model] = {"ends": worst_end, "side": float(worst_side)}
+    return out
+
+
+def judge_o_horo_comp(inp, obs, lr):
+    tags = {"dim": inp["dim"], "k": len(inp["units"]), "composite": True, "square": len(inp["units"]) == inp["dim"]}
+    if "exc" in obs:
+        return {"expected": "parameters for every horosphere", "observed": obs, "tags": dict(tags, exc=obs["exc"])}
+    for name, o in obs["models"].items():
+        if "shape" in o:
+            return {"expected": "one centre / radius / angle pair per horosphere", "observed": o, "tags": dict(tags, model=name, what="shape")}
+        if "worst" in o and not o["worst"] <= 1e-6:
+            return {"expected": "every unit: sphere through its reference point, tangent to the boundary at its centre", "observed": o, "tags": dict(tags, model=name)}
+        if "ends" in o and not (o["ends"] <= 1e-5 and o["side"] <= 1e-5):
+            return {"expected": "every unit: arc between its endpoints avoiding its ideal centre", "observed": o, "tags": dict(tags, model=name, what="arc")}
+    return None
+
+
 CLAUSES = [
     Clause("ideal_corr", "corr", gen_ideal, run_ideal, judge_ideal, lean=lean_ideal, site="hyperbolic.Segment._compute_aux_data",
            budget={"quick": 120, "thorough": 3000}, what="Segment ideal endpoints vs Lean segmentIdeal over Q (dims 2-4, Klein-normalised and rescaled representatives)"),
@@ -872,6 +949,8 @@ CLAUSES = [
                 "segments' parameters, and every edge's arc joins consecutive vertices inside the model along the hyperbolic segment"),
     Clause("horosphere_oracle", "oracle", gen_o_horo, run_o_horo, judge_o_horo, site="hyperbolic.Horosphere.sphere_parameters",
            budget={"quick": 150, "thorough": 5000}, what="horosphere sphere through the reference point, tangent at the centre (dims 2-4, both models); HorosphereArc angles (dim 2)"),
+    Clause("horosphere_composite_oracle", "oracle", gen_o_horo_comp, run_o_horo_comp, judge_o_horo_comp, site="hyperbolic.Horosphere.sphere_parameters",
+           budget={"quick": 80, "thorough": 2500}, what="arrays of 2-5 horospheres (including exactly dim of them) and, in dim 2, arrays of horosphere arcs: every unit's sphere and arc"),
     Clause("subspace_oracle", "oracle", gen_o_subspace, run_o_subspace, judge_o_subspace, site="hyperbolic.Subspace.sphere_parameters",
            budget={"quick": 150, "thorough": 5000}, what="subspace spheres contain the ideal points, orthogonal to the boundary: subspace dimension 1..n-1, n = 2..4, composite shapes"),
 ]
